@@ -18,7 +18,7 @@ pub const INFO: PropInfo = PropInfo {
     quick_runs: 40_000,
     thorough_runs: 1_500_000,
     rule: "each run = one JWT configuration (HS256/384/512, generated secret incl. empty and longer than the hash block, fang at the root / on a mount / local to a handler; token taken from the default place, or via `.get_token_by` from a custom header (then sometimes with a valid decoy token in the default place) or from another scheme) and 2..10 requests on a keep-alive connection (sometimes reconnecting), \
-           each with a generated token (issued by the same configuration, built by the reference model with any payload and header, single-character mutations, re-signed with another key or algorithm, alg none/other/missing, typ/cty variants, 1/2/4 parts, wrong signature lengths, other schemes, garbage, missing) \
+           each with a generated token (issued by the same configuration, built by the reference model with any payload and header, single-character mutations, re-signed with another key or algorithm, alg none/other/missing, typ/cty variants, 1/2/4 parts, wrong signature lengths, other schemes, garbage, missing, or the very same token as an earlier request at an instant on the other side of one of its time claims) \
            and a simulated wall-clock instant chosen around the token's exp/nbf/iat (clock jumps forwards and backwards between requests); non-trivial = at least one token was admitted and one refused; distinct = distinct hash of (configuration, tokens, instants)",
     state_measure: "(token kind, verdict of the model, relation of now to the time claims) combinations",
     assumptions: &[
@@ -27,7 +27,7 @@ pub const INFO: PropInfo = PropInfo {
         "payload objects carry no duplicate keys",
         "HMAC is implemented independently (ipad/opad construction) on top of the sha2 crate's compression functions; SHA-2 itself is trusted and cross-checked against Python's hashlib once per batch",
     ],
-    expected_probes: &["c12.issued_token_admitted", "c12.expired_refused", "c12.exp_boundary", "c12.nbf_boundary", "c12.clock_jump_backwards", "c12.mutation_refused", "c12.other_key_refused", "c12.alg_none_refused", "c12.four_parts", "c12.fractional_time_claim", "c12.previous_payload_not_leaked", "c12.options_bypass", "c12.custom_token_source", "c12.decoy_in_default_place"],
+    expected_probes: &["c12.issued_token_admitted", "c12.expired_refused", "c12.exp_boundary", "c12.nbf_boundary", "c12.clock_jump_backwards", "c12.mutation_refused", "c12.other_key_refused", "c12.alg_none_refused", "c12.four_parts", "c12.fractional_time_claim", "c12.previous_payload_not_leaked", "c12.options_bypass", "c12.custom_token_source", "c12.decoy_in_default_place", "c12.same_token_again_other_verdict"],
 };
 
 #[derive(Clone, Debug, Serialize, Deserialize)]
@@ -373,7 +373,7 @@ pub fn generate(_cfg: &RunCfg, _out: &mut Outcome) -> Scenario {
     };
     let n = t::range(2, 10) as usize;
     let mut now = t::pick(&[1_700_000_000u64, 1_000, 4_102_444_800, 1_516_239_022]);
-    let mut reqs = Vec::new();
+    let mut reqs: Vec<Req> = Vec::new();
     let jwt = make_jwt(alg, &secret);
     let issue = |v: &Value| -> String { jwt.clone().issue(v.clone()).to_string() };
     for _ in 0..n {
@@ -384,6 +384,35 @@ pub fn generate(_cfg: &RunCfg, _out: &mut Outcome) -> Scenario {
             2 => now.saturating_sub(t::pick(&[1u64, 60, 86_400])),
             _ => t::range(1_000, 4_000_000_000),
         };
+        // the very same token again, at an instant on the other side of one of its time claims (a verdict is a function
+        // of (token, now), never of what was decided for the token before)
+        if !reqs.is_empty() && t::chance(1, 5) {
+            let prev: Req = reqs[t::draw(reqs.len() as u32) as usize].clone();
+            let claims: Vec<u64> = prev
+                .authorization
+                .as_deref()
+                .and_then(|a| a.split(' ').nth(1))
+                .and_then(|tk| tk.split('.').nth(1))
+                .and_then(unb64)
+                .and_then(|p| serde_json::from_slice::<Value>(&p).ok())
+                .map(|v| ["exp", "nbf", "iat"].iter().filter_map(|k| v.get(*k).and_then(|c| c.as_f64())).filter(|c| *c >= 1.0 && *c < 4.0e9).map(|c| c as u64).collect())
+                .unwrap_or_default();
+            let again_at = if !claims.is_empty() && t::chance(3, 4) {
+                let c = t::pick(&claims);
+                match t::draw(4) {
+                    0 => c.saturating_sub(1),
+                    1 => c,
+                    2 => c + 1,
+                    _ => c + 3600,
+                }
+            } else {
+                now
+            };
+            now = again_at;
+            let rel = prev.kind.split('/').nth(1).unwrap_or("").to_string();
+            reqs.push(Req { kind: format!("same-token-again/{rel}"), now, reconnect_before: t::chance(1, 6), ..prev });
+            continue;
+        }
         reqs.push(gen_req(alg, &secret, now, &issue));
     }
     let placement = t::draw(3) as u8;
@@ -539,6 +568,19 @@ fn execute(sc: &Scenario, out: &mut Outcome) {
         prev_now = Some(r.now);
         let ran = resp.header("X-Me").is_some();
         let rel = r.kind.split('/').nth(1).unwrap_or("");
+        if kind0 == "same-token-again" {
+            // did the model decide differently for an earlier presentation of this token?
+            let mine = matches!(j, Judgement::Admit(_));
+            let earlier_differs = sc.reqs[..k].iter().any(|e| {
+                e.authorization == r.authorization && {
+                    let (_, tk) = wire(sc.token_source, e);
+                    tk.map(|tk| matches!(judge_token(sc.alg, &sc.secret, &tk, e.now), Judgement::Admit(_)) != mine).unwrap_or(false)
+                }
+            });
+            if earlier_differs {
+                out.probe("c12.same_token_again_other_verdict");
+            }
+        }
         out.states.push(format!("{kind0}|{}|{rel}", match &j { Judgement::Admit(_) => "admit", Judgement::Refuse(_) => "refuse", Judgement::Open => "open" }));
         if r.method == "OPTIONS" {
             // documented bypass: 200 without running the handler
